@@ -49,6 +49,19 @@ CHECKS['C20'] = dict(
          'random executions keep N/b small for big batches.',
     design='8 (C20), Appendix C', engine='parquet')
 
+CHECKS['C17'] = dict(
+    text='TextCodec.tla models characters by their byte width per encoding (utf-8 1..4, utf-16 2/4 + BOM once, utf-32 '
+         '4 + BOM once, latin-1 1), the incremental decoder buffering the bytes of an incomplete character or BOM, and '
+         'the rxsci encode()/decode() wrappers as coded (one codec object per subscription, final flush on '
+         'completion, the incremental=False mode). TLC checks Confluence (decoded text = characters whose last byte '
+         'was fed), RoundTrip, OneBOM for every string list over a 5-character palette and every byte-level '
+         're-chunking incl. cuts inside characters and inside the BOM. The palette is instantiated with real '
+         'characters of those widths, so TLC behaviours replay byte-exactly on the real operators; random executions '
+         'cover the full Unicode range; TextCodecTrace.tla validates every recorded execution.',
+    note='Python codecs are assumed components (width axioms checked on every trace); bounded model (<=3 strings of '
+         '<=2 characters); streams truncated inside a character are outside the property (reported only).',
+    design='8 (C17), 3.2, Appendix C', engine='text-codec')
+
 MUX_NOTE = ('Bounded / sampled: TLC explores the specification side exhaustively within small constants; '
             'the real code is driven on harness-enumerated small inputs and on random cases of the '
             'property\'s operator family, every recorded execution is judged by TLC. Trusts: the taps '
@@ -108,6 +121,8 @@ ENGINES = [
          serves_properties=['C15'], kind_free_text='TLA+ transducer spec + TLC + trace validation'),
     dict(name='stream-codec', path='spec/StreamCodec.tla spec/StreamCodecTrace.tla harness/checks/c16.py',
          serves_properties=['C16'], kind_free_text='TLA+ transducer spec with axiomatised library + TLC + trace validation'),
+    dict(name='text-codec', path='spec/TextCodec.tla spec/TextCodecTrace.tla harness/checks/c17.py',
+         serves_properties=['C17'], kind_free_text='TLA+ transducer spec + TLC + trace validation'),
     dict(name='parquet', path='spec/ParquetDump.tla spec/ParquetDumpTrace.tla harness/checks/c20.py',
          serves_properties=['C20'], kind_free_text='TLA+ implementation model (heap of python lists) + TLC + trace validation'),
     dict(name='mux-contracts', path='spec/FnLib.tla spec/ListSem.tla spec/ListSemCheck.tla spec/Contracts.tla '
